@@ -71,6 +71,28 @@ import os
 extra = {}
 if os.path.exists('/verif/manifest_extra.json'):
     extra = json.load(open('/verif/manifest_extra.json'))
+extra_text = {
+ "C01": " Also run through the PrefixSet API, on big universes (40-72 prefixes, 80-200 operations), at scale (bulk inserts of hundreds of prefixes, complete nested chains of depth W+1), by bounded-exhaustive BFS on (u8,u8) (lengths <= 2 to fixpoint: 3380 states / 216 k transitions; lengths <= 3 to a depth/state cap) and, in the thorough tier, by a libFuzzer campaign on the same interpreter.",
+ "C02": " Also through PrefixSet::get_lpm, on big/scale/chain cases and under the BFS.",
+ "C03": " Also PrefixSet iterators, default-constructed iterators, big/scale/chain cases, BFS.",
+ "C04": " Also PrefixSet, big/scale cases (>= 256 entries under one selector), BFS; a panic inside a counter-affecting operation counts as a violation.",
+ "C05": " Every case additionally sweeps 7x7 root pairs (all nodes of both tries and the positions one bit above them); 1/16 of the cases are scale cases; `&map` operands; thorough tier adds a libFuzzer campaign (`setops`).",
+ "C06": " Same generator and root sweep as C05.",
+ "C07": " Same generator and root sweep as C05.",
+ "C08": " Same generator and root sweep as C05; the reported match must be bit-identical to the stored prefix of the other view; difference_mut annotations included.",
+ "C09": " All LPM variants are compared with the last element of the cover; PrefixSet::cover/get_spm; big/scale/chain cases; BFS.",
+ "C10": " Extra retain-heavy and bulk-removal profiles, PrefixSet twins, big/scale cases, BFS.",
+ "C11": " Also (&view_mut).view(), PrefixSet views, big tries.",
+ "C12": " Also depth-2 search chains (find on the result of find) and big tries.",
+ "C13": " Twins are compared bit for bit (raw prefix incl. host bits).",
+ "C14": " On states whose arena has a node reachable along two paths the identity check runs model-free. Thorough tier: Miri (3 schedule seeds; all operations without borrow tracking, the get_mut-only subset with Stacked Borrows).",
+ "C15": " Also on PrefixSet, big/scale/chain cases, BFS (canonical sub-alphabet: every reachable key set over 15 prefixes up to the cap).",
+ "C16": " Plus churn cases (working set inserted/removed for 6-400 phases, arena length must reach a steady state), clone / clone_from, big/scale cases, BFS.",
+ "C18": " Interchangeability is decided by a metamorphic twin: a case failing any oracle under host-bit noise is re-run with all host bits zeroed; if the twin passes the behaviour depends on host bits.",
+ "C19": " Also sets with value-less leftover nodes, clone_from into a map with its own history, serde_json round-trips.",
+ "C20": " Plus fault injection: for every generated state a panic is injected at every retain predicate invocation index (4 predicates) and into or_insert_with / insert_with / and_modify closures on vacant, occupied and value-less-node entries; afterwards shape, len, contents, arena and a suffix of ordinary operations are checked. Debug formatting included. Thorough tier re-runs everything in a release-profile build (no overflow checks).",
+ "C17": " Thorough tier re-runs everything in a release-profile build (wrapping arithmetic).",
+}
 checks=[]
 for pid,(tech,text,note) in sorted(claimed.items()):
     checks.append({
@@ -80,7 +102,7 @@ for pid,(tech,text,note) in sorted(claimed.items()):
       "evidence_file": f"/verif/evidence/{pid}.json",
       "replay_cmd_template": f"./check {pid} --replay {{path}}",
       "engine": "ptv",
-      "level_claimed": {"category": "exploration", "text": text, "design_ref": f"DESIGN.md §4 {pid}"},
+      "level_claimed": {"category": "exploration", "text": text + extra_text.get(pid, ""), "design_ref": f"DESIGN.md §4 {pid}, §7-8 (as built)"},
       "level_note": note,
       "technique": tech,
     })
